@@ -1084,6 +1084,10 @@ func (a *Assembler) cleanSG(half *halfconnection, ac AssemblerContext) {
 	var saved *page
 	for _, r := range a.cacheSG.all[ndx:] {
 		first, last, nb := r.convertToPages(a.pc, skip, ac)
+		if _, isPage := r.(*page); !isPage {
+			// pages newly allocated for bytes of the packet in hand
+			half.pages += nb
+		}
 		// skip is the offset of toKeep inside the first kept container only
 		skip = 0
 
@@ -1139,7 +1143,7 @@ func (a *Assembler) addPending(half *halfconnection, firstSeq Sequence) int {
 		var next *page
 		for p := half.saved; p != nil; p = next {
 			next = p.next
-			p.release(a.pc)
+			half.pages -= p.release(a.pc)
 		}
 		half.saved = nil
 		ret = []byteContainer{}
@@ -1219,6 +1223,7 @@ func (a *Assembler) closeHalfConnection(conn *connection, half *halfconnection) 
 	for p := half.saved; p != nil; p = next {
 		next = p.next
 		a.pc.replace(p)
+		half.pages--
 	}
 	half.saved = nil
 
